@@ -138,7 +138,7 @@ theorem ref_loop (E : Ext) (p : Nat) (name : Bytes) (d : RefD) (wf : WFRef E nam
       · exact absurd e h
       · apply loopVal_one
         have := hexDecode16_enc md5 0 [] hb (by omega)
-        simp [refAssign, this, hl]
+        simp [refAssign, this, hl, hexEnc_length]
   rw [s2]; dsimp only
   -- AS
   have s3 : loopVal (refAssign E p) { name := name, d := { len := len, md5 := md5 }, nok := true, lok := true }
